@@ -5,7 +5,8 @@ import MpsVerif.Proofs.TeeFair
 Model: `Model/Tee.lean` (the repaired `Fork.__next__`, one action per access to shared state).
 Every theorem is about every reachable state, i.e. **every** action list: every interleaving of
 any number `c.n` of forks (the property needs `n ≥ 2`; the theorems need at most `n ≥ 1`) with
-preemption between any two shared-state accesses, every `buffer_size` (`≥ 2` only where the real
+preemption between any two shared-state accesses (finer than lines: also between the read and the
+write of `box.n += 1`), every `buffer_size` (`≥ 2` only where the real
 code needs it: progress), every source length (0, 1, longer than the window) and both source
 endings (exhaustion / exception after `len` elements).  Elements are identified by their index in
 the source; box `len` is the terminal box that carries the source's exception.
@@ -64,8 +65,9 @@ theorem C10_lookahead (c : Cfg) (s : State) (hr : Reachable c s) (hn : 0 < c.n) 
 
 /-- The window: it never holds more than `buffer_size` boxes; no popped box is still needed
     (`popped ≤ inc f`); a count never exceeds the number of forks; `with box.lock` is a mutex
-    (at most one fork between `box.n += 1` and the end of the `with` block of a box — this is what
-    makes the separate line `if box.n == n_forks` read the fork's own count); and the fork that
+    (at most one fork inside the `with` block of a box — this is what makes the read and the write
+    of `box.n += 1`, which are separate actions of the model, and the separate line
+    `if box.n == n_forks` see the fork's own count); and the fork that
     pops is the last fork to have counted the box, pops its own box, which is the oldest one in
     the window (so `buffer.get()` never blocks and never removes a box somebody still needs). -/
 theorem C10_window (c : Cfg) (s : State) (hr : Reachable c s) (hn : 0 < c.n) :
@@ -178,10 +180,10 @@ example :
       (s.forks 0).fin = some .stop ∧ (s.forks 1).fin = some .stop ∧ s.lock = none ∧ s.pulled = 1 := by
   refine ⟨_, ⟨[⟨1, .call⟩, ⟨1, .hget⟩, ⟨1, .hget⟩, ⟨1, .acqOk⟩, ⟨1, .hget⟩, ⟨1, .pull⟩, ⟨1, .put⟩, ⟨1, .hset⟩,
       ⟨1, .rel⟩, ⟨1, .hget⟩, ⟨1, .hget⟩, ⟨1, .nget⟩, ⟨1, .acqOk⟩, ⟨1, .nget⟩, ⟨1, .srcEnd⟩, ⟨1, .rel⟩,
-      ⟨1, .bacq⟩, ⟨1, .inc⟩, ⟨1, .ncmp⟩, ⟨1, .brel⟩, ⟨1, .nget⟩, ⟨1, .recv⟩, ⟨1, .call⟩, ⟨1, .hget⟩,
-      ⟨1, .stop⟩, ⟨0, .call⟩, ⟨0, .hget⟩, ⟨0, .hget⟩, ⟨0, .nget⟩, ⟨0, .acqOk⟩, ⟨0, .nget⟩,
-      ⟨0, .srcEnd⟩, ⟨0, .rel⟩, ⟨0, .bacq⟩, ⟨0, .inc⟩, ⟨0, .ncmp⟩, ⟨0, .get⟩, ⟨0, .brel⟩, ⟨0, .nget⟩,
-      ⟨0, .recv⟩, ⟨0, .call⟩, ⟨0, .hget⟩, ⟨0, .stop⟩], rfl⟩, ?_⟩
+      ⟨1, .bacq⟩, ⟨1, .ncmp⟩, ⟨1, .inc⟩, ⟨1, .ncmp⟩, ⟨1, .brel⟩, ⟨1, .nget⟩, ⟨1, .recv⟩, ⟨1, .call⟩,
+      ⟨1, .hget⟩, ⟨1, .stop⟩, ⟨0, .call⟩, ⟨0, .hget⟩, ⟨0, .hget⟩, ⟨0, .nget⟩, ⟨0, .acqOk⟩, ⟨0, .nget⟩,
+      ⟨0, .srcEnd⟩, ⟨0, .rel⟩, ⟨0, .bacq⟩, ⟨0, .ncmp⟩, ⟨0, .inc⟩, ⟨0, .ncmp⟩, ⟨0, .get⟩, ⟨0, .brel⟩,
+      ⟨0, .nget⟩, ⟨0, .recv⟩, ⟨0, .call⟩, ⟨0, .hget⟩, ⟨0, .stop⟩], rfl⟩, ?_⟩
   decide
 
 /-- the source fails at its first pull: both forks end with the exception, the source is pulled
@@ -191,9 +193,9 @@ example :
     ∃ s, Reachable c s ∧ Final c s ∧ (s.forks 0).out = [] ∧ (s.forks 0).fin = some .exc ∧
       (s.forks 1).fin = some .exc ∧ s.lock = none ∧ s.boxes = 1 ∧ s.endPulls = 0 := by
   refine ⟨_, ⟨[⟨1, .call⟩, ⟨1, .hget⟩, ⟨1, .hget⟩, ⟨1, .acqOk⟩, ⟨1, .hget⟩, ⟨1, .srcExc⟩, ⟨1, .put⟩,
-      ⟨1, .hset⟩, ⟨1, .rel⟩, ⟨1, .hget⟩, ⟨1, .hget⟩, ⟨1, .nget⟩, ⟨1, .bacq⟩, ⟨1, .inc⟩, ⟨1, .ncmp⟩,
-      ⟨1, .brel⟩, ⟨1, .nget⟩, ⟨1, .exc⟩, ⟨0, .call⟩, ⟨0, .hget⟩, ⟨0, .hget⟩, ⟨0, .nget⟩, ⟨0, .bacq⟩,
-      ⟨0, .inc⟩, ⟨0, .ncmp⟩, ⟨0, .get⟩, ⟨0, .brel⟩, ⟨0, .nget⟩, ⟨0, .exc⟩], rfl⟩, ?_⟩
+      ⟨1, .hset⟩, ⟨1, .rel⟩, ⟨1, .hget⟩, ⟨1, .hget⟩, ⟨1, .nget⟩, ⟨1, .bacq⟩, ⟨1, .ncmp⟩, ⟨1, .inc⟩,
+      ⟨1, .ncmp⟩, ⟨1, .brel⟩, ⟨1, .nget⟩, ⟨1, .exc⟩, ⟨0, .call⟩, ⟨0, .hget⟩, ⟨0, .hget⟩, ⟨0, .nget⟩,
+      ⟨0, .bacq⟩, ⟨0, .ncmp⟩, ⟨0, .inc⟩, ⟨0, .ncmp⟩, ⟨0, .get⟩, ⟨0, .brel⟩, ⟨0, .nget⟩, ⟨0, .exc⟩], rfl⟩, ?_⟩
   decide
 
 /-- the source fails after one element: both forks receive `[0]`, then the exception -/
@@ -203,11 +205,12 @@ example :
       (s.forks 0).fin = some .exc ∧ (s.forks 1).fin = some .exc ∧ s.lock = none := by
   refine ⟨_, ⟨[⟨1, .call⟩, ⟨1, .hget⟩, ⟨1, .hget⟩, ⟨1, .acqOk⟩, ⟨1, .hget⟩, ⟨1, .pull⟩, ⟨1, .put⟩, ⟨1, .hset⟩,
       ⟨1, .rel⟩, ⟨1, .hget⟩, ⟨1, .hget⟩, ⟨1, .nget⟩, ⟨1, .acqOk⟩, ⟨1, .nget⟩, ⟨1, .srcExc⟩,
-      ⟨1, .nset⟩, ⟨1, .put⟩, ⟨1, .rel⟩, ⟨1, .bacq⟩, ⟨1, .inc⟩, ⟨1, .ncmp⟩, ⟨1, .brel⟩, ⟨1, .nget⟩,
-      ⟨1, .recv⟩, ⟨1, .call⟩, ⟨1, .nget⟩, ⟨1, .bacq⟩, ⟨1, .inc⟩, ⟨1, .ncmp⟩, ⟨1, .brel⟩, ⟨1, .nget⟩,
-      ⟨1, .exc⟩, ⟨0, .call⟩, ⟨0, .hget⟩, ⟨0, .hget⟩, ⟨0, .nget⟩, ⟨0, .bacq⟩, ⟨0, .inc⟩, ⟨0, .ncmp⟩,
-      ⟨0, .get⟩, ⟨0, .brel⟩, ⟨0, .nget⟩, ⟨0, .recv⟩, ⟨0, .call⟩, ⟨0, .nget⟩, ⟨0, .bacq⟩, ⟨0, .inc⟩,
-      ⟨0, .ncmp⟩, ⟨0, .get⟩, ⟨0, .brel⟩, ⟨0, .nget⟩, ⟨0, .exc⟩], rfl⟩, ?_⟩
+      ⟨1, .nset⟩, ⟨1, .put⟩, ⟨1, .rel⟩, ⟨1, .bacq⟩, ⟨1, .ncmp⟩, ⟨1, .inc⟩, ⟨1, .ncmp⟩, ⟨1, .brel⟩,
+      ⟨1, .nget⟩, ⟨1, .recv⟩, ⟨1, .call⟩, ⟨1, .nget⟩, ⟨1, .bacq⟩, ⟨1, .ncmp⟩, ⟨1, .inc⟩, ⟨1, .ncmp⟩,
+      ⟨1, .brel⟩, ⟨1, .nget⟩, ⟨1, .exc⟩, ⟨0, .call⟩, ⟨0, .hget⟩, ⟨0, .hget⟩, ⟨0, .nget⟩, ⟨0, .bacq⟩,
+      ⟨0, .ncmp⟩, ⟨0, .inc⟩, ⟨0, .ncmp⟩, ⟨0, .get⟩, ⟨0, .brel⟩, ⟨0, .nget⟩, ⟨0, .recv⟩, ⟨0, .call⟩,
+      ⟨0, .nget⟩, ⟨0, .bacq⟩, ⟨0, .ncmp⟩, ⟨0, .inc⟩, ⟨0, .ncmp⟩, ⟨0, .get⟩, ⟨0, .brel⟩, ⟨0, .nget⟩,
+      ⟨0, .exc⟩], rfl⟩, ?_⟩
   decide
 
 /-- the look-ahead bound is attained: fork 0 has received nothing, `pulled = 4 = 0 + bs + 2`
@@ -218,11 +221,11 @@ example :
     ∃ s, Reachable c s ∧ ¬ Final c s ∧ (s.forks 0).out = [] ∧ (s.forks 1).out = [0, 1] ∧ s.pulled = 4 ∧ s.popped = 1 ∧ s.put = 3 := by
   refine ⟨_, ⟨[⟨1, .call⟩, ⟨1, .hget⟩, ⟨1, .hget⟩, ⟨1, .acqOk⟩, ⟨1, .hget⟩, ⟨1, .pull⟩, ⟨1, .put⟩, ⟨1, .hset⟩,
       ⟨1, .rel⟩, ⟨1, .hget⟩, ⟨1, .hget⟩, ⟨1, .nget⟩, ⟨1, .acqOk⟩, ⟨1, .nget⟩, ⟨1, .pull⟩, ⟨1, .nset⟩,
-      ⟨1, .put⟩, ⟨1, .rel⟩, ⟨1, .bacq⟩, ⟨1, .inc⟩, ⟨0, .call⟩, ⟨0, .hget⟩, ⟨0, .hget⟩, ⟨0, .nget⟩,
-      ⟨1, .ncmp⟩, ⟨1, .brel⟩, ⟨1, .nget⟩, ⟨1, .recv⟩, ⟨1, .call⟩, ⟨1, .nget⟩, ⟨1, .acqOk⟩, ⟨1, .nget⟩,
-      ⟨0, .bacq⟩, ⟨0, .inc⟩, ⟨0, .ncmp⟩, ⟨0, .get⟩, ⟨1, .pull⟩, ⟨1, .nset⟩, ⟨1, .put⟩, ⟨1, .rel⟩,
-      ⟨1, .bacq⟩, ⟨1, .inc⟩, ⟨1, .ncmp⟩, ⟨1, .brel⟩, ⟨1, .nget⟩, ⟨1, .recv⟩, ⟨1, .call⟩, ⟨1, .nget⟩,
-      ⟨1, .acqOk⟩, ⟨1, .nget⟩, ⟨1, .pull⟩], rfl⟩, ?_⟩
+      ⟨1, .put⟩, ⟨1, .rel⟩, ⟨1, .bacq⟩, ⟨1, .ncmp⟩, ⟨1, .inc⟩, ⟨0, .call⟩, ⟨0, .hget⟩, ⟨0, .hget⟩,
+      ⟨0, .nget⟩, ⟨1, .ncmp⟩, ⟨1, .brel⟩, ⟨1, .nget⟩, ⟨1, .recv⟩, ⟨1, .call⟩, ⟨1, .nget⟩, ⟨1, .acqOk⟩,
+      ⟨1, .nget⟩, ⟨0, .bacq⟩, ⟨0, .ncmp⟩, ⟨0, .inc⟩, ⟨0, .ncmp⟩, ⟨0, .get⟩, ⟨1, .pull⟩, ⟨1, .nset⟩,
+      ⟨1, .put⟩, ⟨1, .rel⟩, ⟨1, .bacq⟩, ⟨1, .ncmp⟩, ⟨1, .inc⟩, ⟨1, .ncmp⟩, ⟨1, .brel⟩, ⟨1, .nget⟩,
+      ⟨1, .recv⟩, ⟨1, .call⟩, ⟨1, .nget⟩, ⟨1, .acqOk⟩, ⟨1, .nget⟩, ⟨1, .pull⟩], rfl⟩, ?_⟩
   decide
 
 end Tee
